@@ -20,6 +20,28 @@ Theorem config_limits_match :
   lookup config_consts "MaxPubKeysPerMultiSigBeforeGenesis" = Some (max_pubkeys pre_genesis_ctx).
 Proof. vm_compute. repeat split; reflexivity. Qed.
 
+(** ... and what the methods of BOTH era configurations return (literals and math.MaxInt32 inside method bodies, not
+    named constants: 750 * 1000 for the post-Genesis number length), evaluated by the translator *)
+Definition post_genesis_ctx : ctx := mkCtx (N.shiftl 1 F_GENESIS) false 0 0 0 true.
+
+Theorem config_methods_match :
+  after_genesis pre_genesis_ctx = false /\ after_genesis post_genesis_ctx = true /\
+  lookup config_methods "beforeGenesisConfig.AfterGenesis" = Some 0%Z /\
+  lookup config_methods "afterGenesisConfig.AfterGenesis" = Some 1%Z /\
+  lookup config_methods "beforeGenesisConfig.MaxOps" = Some (max_ops pre_genesis_ctx) /\
+  lookup config_methods "beforeGenesisConfig.MaxStackSize" = Some (max_stack pre_genesis_ctx) /\
+  lookup config_methods "beforeGenesisConfig.MaxScriptSize" = Some (max_script_size pre_genesis_ctx) /\
+  lookup config_methods "beforeGenesisConfig.MaxScriptElementSize" = Some (max_elem pre_genesis_ctx) /\
+  lookup config_methods "beforeGenesisConfig.MaxScriptNumberLength" = Some (max_numlen pre_genesis_ctx) /\
+  lookup config_methods "beforeGenesisConfig.MaxPubKeysPerMultiSig" = Some (max_pubkeys pre_genesis_ctx) /\
+  lookup config_methods "afterGenesisConfig.MaxOps" = Some (max_ops post_genesis_ctx) /\
+  lookup config_methods "afterGenesisConfig.MaxStackSize" = Some (max_stack post_genesis_ctx) /\
+  lookup config_methods "afterGenesisConfig.MaxScriptSize" = Some (max_script_size post_genesis_ctx) /\
+  lookup config_methods "afterGenesisConfig.MaxScriptElementSize" = Some (max_elem post_genesis_ctx) /\
+  lookup config_methods "afterGenesisConfig.MaxScriptNumberLength" = Some (max_numlen post_genesis_ctx) /\
+  lookup config_methods "afterGenesisConfig.MaxPubKeysPerMultiSig" = Some (max_pubkeys post_genesis_ctx).
+Proof. vm_compute. repeat split; reflexivity. Qed.
+
 Definition flag_bit_ok (name : string) (bit : N) : bool :=
   match lookup flag_consts name with Some v => (v =? Z.of_N (N.shiftl 1 bit))%Z | None => false end.
 
